@@ -512,7 +512,7 @@ class Interp:
                 raise Unsupported('missing promoted body ' + pname)
             loc = ('prom', pname, tuple(sorted((k, _tykey(v)) for k, v in (fr.sub or {}).items())))
             if loc not in st.mem:
-                outs = self.run_fn(pf, [], st, fr.sub)
+                outs = self.run_fn(pf, [], st, fr.sub, keep_locals=True)
                 if len(outs) != 1 or outs[0].kind != 'ret':
                     raise Unsupported('promoted %s does not evaluate to one value' % pname)
                 # promoted bodies return a reference to their local; keep the referent alive
@@ -1190,7 +1190,7 @@ class Interp:
             raise Unsupported('no such function ' + name)
         return self.run_fn(f, args, st if st is not None else State(), sub, consts)
 
-    def run_fn(self, f, args, st, sub=None, consts=None):
+    def run_fn(self, f, args, st, sub=None, consts=None, keep_locals=False):
         self.depth += 1
         if self.depth > self.max_depth:
             self.depth -= 1
@@ -1206,8 +1206,8 @@ class Interp:
             outs = self.exec_block(fr, 0, st, frozenset())
         finally:
             self.depth -= 1
-        # drop the frame's locals
-        for o in outs:
+        # drop the frame's locals (promoted bodies return references to theirs)
+        for o in ([] if keep_locals else outs):
             m = o.st.mem
             for k in [k for k in m if k[0] == 'L' and k[1] == fid]:
                 del m[k]
